@@ -10,6 +10,8 @@
     the exhausted-counter exit that zeroes the rest and returns -1) = the hand model `KState.expand`, whose sequences TJ.Props.C13.incremental
     proves to be the successive slices of the one-shot stream.
   * `extract_source_is_model` — `tinyjambu_hkdf_extract` = `KState.extract`.
+  * `hkdf_incremental_source` — extract on a state object with any prior content followed by ANY sequence of expand calls: the results are `TJ.Props.C13.expectExpands` of the
+    RFC 5869 stream (consecutive slices, zeros with -1 past byte 8160) — the incremental half of C13 stated directly on the regenerated code.
   * `expands_source_are_model` — ANY sequence of `tinyjambu_hkdf_expand` calls on one state object (by induction on the sequence) returns, call by call, the return
     values and bytes of the model's `runExpands`, i.e. after `extract` the consecutive slices of `T(1) ‖ … ‖ T(255)` then zeros with -1 (TJ.Props.C13.incremental).
 
@@ -169,5 +171,37 @@ theorem expands_source_are_model (bK bo bi baseK baseo basei oo ioff cap pinfo :
     show ExpandRun bK bo baseK baseo oo pinfo info st (n :: ns) (((k.expand info n).1, (k.expand info n).2.1) :: (TJ.Props.C13.runExpands (k.expand info n).2.2 info ns).1) st2
     rw [← hret]
     exact ExpandRun.cons st st1 st2 n ns rv fuel _ _ XO1 hrun h1 h3 h4 hrun2
+
+/-- **C13, incremental form, on the regenerated source**: `tinyjambu_hkdf_extract` on a state object with ANY prior content (undefined bytes included), followed by ANY
+    sequence of `tinyjambu_hkdf_expand` calls with the same info, returns call by call the consecutive slices of RFC 5869's `T(1) ‖ … ‖ T(255)` over the library's own
+    HMAC, zero-filled past byte 8160, with -1 exactly for the calls that had to zero-fill (`TJ.Props.C13.expectExpands`). -/
+theorem hkdf_incremental_source (st : St) (bK bk bt bo bi : Nat) (X XK XT XO : Array LByte) (baseK basek koff baset toff baseo oo basei ioff cap pinfo : Nat)
+    (key salt info : Bytes) (ns : List Nat) (hns : ∀ n ∈ ns, n ≤ cap)
+    (hS : st.mem[bK]? = some ⟨X, baseK⟩) (hK : st.mem[bk]? = some ⟨XK, basek⟩) (hT : st.mem[bt]? = some ⟨XT, baset⟩) (hO : st.mem[bo]? = some ⟨XO, baseo⟩)
+    (hnk : bk ≠ bK) (hnt : bt ≠ bK) (hKo : bK ≠ bo) (hXs : 66 ≤ X.size)
+    (hltS : baseK + X.size < ptrBase) (hltK : basek + XK.size < ptrBase) (hltT : baset + XT.size < ptrBase) (hltO : baseo + XO.size < ptrBase)
+    (hkd : BytesV XK koff key) (htd : BytesV XT toff salt) (hcap : oo + cap ≤ XO.size)
+    (hI : info = [] ∨ ∃ XI, st.mem[bi]? = some ⟨XI, basei⟩ ∧ BytesV XI ioff info ∧ pinfo = mkPtr bi (basei + ioff) ∧ bi ≠ bK ∧ bi ≠ bo ∧ basei + XI.size < ptrBase)
+    (hsz : st.mem.size + 9 < 2 ^ 30) :
+    ∃ fuel st1 st2, callFun prog fuel idx_tinyjambu_hkdf_extract false
+        [(mkPtr bK baseK, .pub), (mkPtr bk (basek + koff), .pub), (key.length, .pub), (mkPtr bt (baset + toff), .pub), (salt.length, .pub)] st =
+        .ok .normal #[(0, .pub), (mkPtr bK baseK, .pub), (mkPtr bk (basek + koff), .pub), (key.length, .pub), (mkPtr bt (baset + toff), .pub), (salt.length, .pub)] st1 ∧
+      ExpandRun bK bo baseK baseo oo pinfo info st1 ns (TJ.Props.C13.expectExpands (Spec.hkdfOkm hash (Spec.hkdfExtract hash salt key) info) ns) st2 := by
+  obtain ⟨fuel, st1, X1, hrun, hent1, hmsz1, hX1, hX1s, ho1, _, hoth1⟩ := extract_source_is_model st bK bk bt X XK XT baseK basek koff baset toff kFresh False key salt
+    hS hK hT hnk hnt hXs (fun h => h.elim) (by simp [kFresh, zeros]) hltS hltK hltT hkd htd hsz
+  obtain ⟨XO1, hO1, hO1s, _⟩ := eqv_block (by have := hoth1 bo hKo.symm; rw [hO] at this; exact this)
+  have hready : XReady bK bo bi baseK baseo basei oo ioff cap pinfo info (kFresh.extract key salt) st1 := by
+    refine ⟨⟨X1, False, hX1, ho1, by show (32 : UInt8).toNat ≤ 32; decide, fun h => ?_, by rw [hX1s]; exact hltS⟩, ⟨XO1, hO1, by rw [hO1s]; exact hltO, by rw [hO1s]; exact hcap⟩, ?_, hKo,
+      by rw [hmsz1]; omega⟩
+    · rcases h with h | h
+      · exact h rfl
+      · exact absurd h (by show ¬ (32 : UInt8).toNat < 32; decide)
+    · rcases hI with h | ⟨XI, hb, hd, hp, hiK, hio, hlt⟩
+      · exact Or.inl h
+      · obtain ⟨XI1, e1, e2, e3⟩ := eqv_block (by have := hoth1 bi hiK; rw [hb] at this; exact this)
+        exact Or.inr ⟨XI1, e1, bytesV_of_veq e3 hd, hp, hiK, hio, by rw [e2]; exact hlt⟩
+  obtain ⟨st2, hexp, _, _⟩ := expands_source_are_model bK bo bi baseK baseo basei oo ioff cap pinfo info ns st1 _ hready hns
+  rw [TJ.Props.C13.incremental kFresh (by simp [kFresh, zeros]) key salt info ns] at hexp
+  exact ⟨fuel, st1, st2, hrun, hexp⟩
 
 end TJ.Props.C13Gen
